@@ -69,6 +69,110 @@ def _one(args):
     return (kind, name, 'silent', '')
 
 
+def _package_files(repo):
+    out = []
+    for dp, dn, fn in os.walk(os.path.join(repo, 'billiard')):
+        dn[:] = [d for d in dn if d != '__pycache__']
+        for f in fn:
+            if f.endswith('.py'):
+                out.append(os.path.relpath(os.path.join(dp, f), repo))
+    return sorted(out)
+
+
+def _anchored_locals():
+    import json
+    p = os.path.join(os.path.dirname(os.path.abspath(__file__)), 'rules', 'local_anchors.json')
+    if not os.path.exists(p):
+        return {}
+    out = {}
+    for key, locs in json.load(open(p)).get('anchors', {}).items():
+        rel, qn = key.split('::')
+        out.setdefault(rel, {})[qn] = set(locs)
+    return out
+
+
+def _rename_locals(src, keep):
+    """Rename every function-local variable (never parameters, globals, attributes) except
+    the names in keep[qualname]; nested functions follow their outermost function."""
+    import ast
+    tree = ast.parse(src)
+
+    def locals_of(fn):
+        params, stores, globs = set(), set(), set()
+        for n in ast.walk(fn):
+            if isinstance(n, (ast.FunctionDef, ast.AsyncFunctionDef, ast.Lambda)):
+                a = n.args
+                for x in a.posonlyargs + a.args + a.kwonlyargs:
+                    params.add(x.arg)
+                if a.vararg:
+                    params.add(a.vararg.arg)
+                if a.kwarg:
+                    params.add(a.kwarg.arg)
+                if not isinstance(n, ast.Lambda) and n is not fn:
+                    params.add(n.name)
+            elif isinstance(n, (ast.Global, ast.Nonlocal)):
+                globs.update(n.names)
+            elif isinstance(n, ast.Name) and isinstance(n.ctx, (ast.Store, ast.Del)):
+                stores.add(n.id)
+            elif isinstance(n, ast.ExceptHandler) and n.name:
+                stores.add(n.name)
+            elif isinstance(n, (ast.Import, ast.ImportFrom)):
+                for al in n.names:
+                    params.add((al.asname or al.name).split('.')[0])
+            elif isinstance(n, ast.ClassDef):
+                params.add(n.name)
+        return {s for s in stores if s not in params and s not in globs and not s.startswith('__')}
+
+    def rec(body, prefix):
+        for st in body:
+            if isinstance(st, (ast.FunctionDef, ast.AsyncFunctionDef)):
+                qn = prefix + st.name
+                mapping = {n: n + '_r' for n in locals_of(st) if n not in keep.get(qn, ())}
+                for n in ast.walk(st):
+                    if isinstance(n, ast.Name) and n.id in mapping:
+                        n.id = mapping[n.id]
+                    elif isinstance(n, ast.ExceptHandler) and n.name in mapping:
+                        n.name = mapping[n.name]
+            elif isinstance(st, ast.ClassDef):
+                rec(st.body, prefix + st.name + '.')
+            elif isinstance(st, (ast.If, ast.Try, ast.With)):
+                rec(getattr(st, 'body', []), prefix)
+                rec(getattr(st, 'orelse', []), prefix)
+                for h in getattr(st, 'handlers', []):
+                    rec(h.body, prefix)
+                rec(getattr(st, 'finalbody', []), prefix)
+    rec(tree.body, '')
+    out = ast.unparse(tree)
+    compile(out, '<renamed>', 'exec')
+    return out
+
+
+def _auto_twin(args):
+    """whole-package twins: 'reformat' (ast.unparse of every file: comments, layout, quotes and
+    parentheses change) and 'rename-locals' (every local not listed as an anchor is renamed)."""
+    import ast
+    repo, prop, name, base = args
+    try:
+        overlay = {}
+        anchored = _anchored_locals()
+        for rel in _package_files(repo):
+            with open(os.path.join(repo, rel), encoding='utf-8') as f:
+                src = f.read()
+            if name == 'auto-reformat':
+                overlay[rel] = ast.unparse(ast.parse(src))
+            else:
+                overlay[rel] = _rename_locals(src, anchored.get(rel, {}))
+        v = _violations(repo, prop, overlay)
+    except AnalysisError as e:
+        return ('twin', name, 'alarm', 'ANALYSIS-ERROR: %s' % e)
+    except SyntaxError as e:
+        return ('twin', name, 'broken', str(e))
+    new_v = v - base
+    if new_v:
+        return ('twin', name, 'alarm', 'twin reported %s' % sorted(new_v)[:3])
+    return ('twin', name, 'silent', '')
+
+
 def run_selftest(prop, repo='/repo', seed=0, jobs=None):
     mod = importlib.import_module('sa.rules.' + prop.lower())
     mutants = list(getattr(mod, 'MUTANTS', []))
@@ -76,14 +180,17 @@ def run_selftest(prop, repo='/repo', seed=0, jobs=None):
     base = _violations(repo, prop)
     work = [(repo, prop, 'mutant', m, base) for m in mutants] + \
            [(repo, prop, 'twin', t, base) for t in twins]
+    auto = [(repo, prop, 'auto-reformat', base), (repo, prop, 'auto-rename-locals', base)]
     results = []
     jobs = jobs or min(16, os.cpu_count() or 1)
     if len(work) > 4 and jobs > 1:
         import multiprocessing as mp
         with mp.get_context('fork').Pool(jobs) as pool:
+            ra = pool.map_async(_auto_twin, auto)
             results = pool.map(_one, work)
+            results += ra.get()
     else:
-        results = [_one(w) for w in work]
+        results = [_one(w) for w in work] + [_auto_twin(a) for a in auto]
     out = {'mutants_run': 0, 'mutants_detected': 0, 'mutants_skipped': 0,
            'twins_run': 0, 'twins_silent': 0, 'twins_skipped': 0,
            'failures': [], 'details': []}
